@@ -97,21 +97,24 @@ b1, b1x = attempt(breadthfirst.bft, ffr)
 r1, r1x = attempt(depthfirst.dft_recursive, ffr)
 i1, i1x = attempt(depthfirst.dft_iterative, ffr)
 
-if pre == "empty":
-    want_bx, want_dx = None, "ValueError"
-elif pre == "notmember":
-    want_bx, want_dx = "ValueError", "ValueError"
+# The statement fixes the outcome only where reachability is defined: start is a member (or no universe) and
+# neighbors() does not raise for any reachable vertex - then every form must return.  What happens for an empty
+# universe, a start outside the universe, or an unknown-type link under LNK_UNKNOWN_ERROR is not part of the
+# statement (the code raises ValueError / NotImplementedError, or returns []): only consistency is required there.
+if pre is None and rexc is None:
+    exc_ok = (b0x is None) and (r0x is None) and (i0x is None) and (b1x is None) and (r1x is None) and (i1x is None)
 else:
-    want_bx, want_dx = rexc, rexc
-exc_ok = (b0x == want_bx) and (r0x == want_dx) and (i0x == want_dx) and (b1x == want_bx) and (r1x == want_dx) and (i1x == want_dx)
+    exc_ok = True
+    for t in (b0, r0, i0):
+        if t is not None and uni is not None:
+            for x in t:
+                exc_ok = exc_ok and (x in uni._vertices)
 gen_ok = (gbx == b1x) and (grx == r1x) and (gix == i1x) and (gb == b1) and (gr == r1) and (gi == i1)
 
 set_ok = True
 filt_ok = True
 order_ok = True
-if pre == "empty":
-    set_ok = (b0 == [])
-elif pre is None and rexc is None and b0 is not None and r0 is not None and i0 is not None:
+if pre is None and rexc is None and b0 is not None and r0 is not None and i0 is not None:
     for t in (b0, r0, i0):
         set_ok = set_ok and (t[0] is start) and no_repeats(t) and same_set(t, reach)
     if ffr is not None and b1 is not None and r1 is not None and i1 is not None:
@@ -196,11 +199,11 @@ def scenario(B, p):
     else:
         B.reach("normal")
     if p["prop"] == "C06":
-        B.prove("exception behaviour (pre-flight checks, unknown-link error) as specified", out["exc_ok"])
+        B.prove("every form returns where reachability is defined; elsewhere nothing outside the universe is listed", out["exc_ok"])
         B.prove("generator form == list form", out["gen_ok"])
         B.prove("starts with start, no repetition, set == reachable in-universe vertices", out["set_ok"])
         B.prove("ff_result only filters the listing", out["filt_ok"])
     else:
-        B.prove("traversals terminate with the specified exception behaviour", out["exc_ok"])
+        B.prove("every traversal returns where reachability is defined", out["exc_ok"])
         B.prove("canonical BFS / recursive pre-order / explicit-stack DFS order; repeatable (also with the cache on)",
                 out["order_ok"])
